@@ -6,6 +6,7 @@ package gen
 import (
 	_ "embed"
 	"encoding/json"
+	"fmt"
 	"strconv"
 	"strings"
 
@@ -522,5 +523,94 @@ func LongDoc(lo, hi int) *rapid.Generator[[]byte] {
 			}
 		}
 		return out
+	})
+}
+
+// RefsDoc builds documents in which the order of competing reference
+// definitions matters: 2-7 pieces, each a definition of a label from a tiny
+// pool (in varying case and inner white space, each with its own destination),
+// a use of such a label (shortcut, collapsed, full, image) or a filler, each
+// wrapped in 0-2 containers (quote, bullet item, ordered item), separated by
+// blank lines or, where that still parses, directly adjacent. Tab-free.
+func RefsDoc() *rapid.Generator[[]byte] {
+	labels := []string{"a", "A", "b", "a b", "A  B", "ß", "SS"}
+	return rapid.Custom(func(t *rapid.T) []byte {
+		n := rapid.IntRange(2, 7).Draw(t, "npieces")
+		var out strings.Builder
+		for i := 0; i < n; i++ {
+			lbl := labels[rapid.IntRange(0, len(labels)-1).Draw(t, "label")]
+			var piece string
+			switch rapid.IntRange(0, 7).Draw(t, "piece") {
+			case 0, 1, 2:
+				piece = fmt.Sprintf("[%s]: /d%d", lbl, i)
+				if rapid.Bool().Draw(t, "title") {
+					piece += fmt.Sprintf(" 't%d'", i)
+				}
+			case 3:
+				piece = "[" + lbl + "]"
+			case 4:
+				piece = "[text][" + lbl + "] and [" + lbl + "][]"
+			case 5:
+				piece = "![" + lbl + "] x"
+			case 6:
+				piece = "# h [" + lbl + "]"
+			default:
+				piece = "filler"
+			}
+			// wrap in containers; continuation lines do not occur (one line per piece)
+			for d, nd := 0, rapid.IntRange(0, 2).Draw(t, "wrap"); d < nd; d++ {
+				piece = []string{"> ", "- ", "1. ", ">", "+ "}[rapid.IntRange(0, 4).Draw(t, "container")] + piece
+			}
+			out.WriteString(piece)
+			out.WriteString("\n")
+			if rapid.IntRange(0, 3).Draw(t, "blank") != 0 {
+				out.WriteString("\n")
+			}
+		}
+		return []byte(out.String())
+	})
+}
+
+// LongLabelDoc builds a definition and uses of a label whose length is next to
+// the 999-character limit (985..1003 characters between the brackets, line
+// endings included), written on one to five lines. Tab-free; starts with '['.
+func LongLabelDoc() *rapid.Generator[[]byte] {
+	return rapid.Custom(func(t *rapid.T) []byte {
+		n := rapid.IntRange(985, 1003).Draw(t, "labellen")
+		if rapid.IntRange(0, 2).Draw(t, "exact") == 0 {
+			n = []int{997, 998, 999, 1000}[rapid.IntRange(0, 3).Draw(t, "exactlen")]
+		}
+		lines := rapid.IntRange(1, 5).Draw(t, "labellines")
+		lab := []byte(strings.Repeat("a", n))
+		// line endings replace characters at distinct interior positions, never adjacent
+		// (a blank line would end the paragraph) and never first or last
+		used := map[int]bool{}
+		for i := 1; i < lines; i++ {
+			p := rapid.IntRange(2, n-3).Draw(t, "breakpos")
+			if used[p-1] || used[p] || used[p+1] {
+				continue
+			}
+			used[p] = true
+			lab[p] = '\n'
+		}
+		if rapid.Bool().Draw(t, "spaces") {
+			for i := 5; i < n-5; i += 37 {
+				if lab[i] == 'a' && lab[i-1] == 'a' && lab[i+1] == 'a' {
+					lab[i] = ' '
+				}
+			}
+		}
+		l := string(lab)
+		var sb strings.Builder
+		sb.WriteString("[" + l + "]: /u\n\n")
+		switch rapid.IntRange(0, 2).Draw(t, "use") {
+		case 0:
+			sb.WriteString("[" + l + "]\n")
+		case 1:
+			sb.WriteString("[x][" + l + "]\n")
+		default:
+			sb.WriteString("[" + l + "][]\n")
+		}
+		return []byte(sb.String())
 	})
 }
